@@ -32,6 +32,7 @@ import (
 	"pgregory.net/rapid"
 
 	"verif/ev"
+	"verif/rig/mesh"
 )
 
 const (
@@ -45,6 +46,8 @@ func TestMain(m *testing.M) {
 	log.DefaultLogger.SetLogLevel(log.FATAL)
 	log.Proxy.SetLogLevel(log.FATAL)
 	_ = variable.Register(variable.NewStringVariable(varX, nil, nil, variable.DefaultStringSetter, 0))
+	mesh.Boot()
+	mesh.SpreadPorts()
 	ev.Main(m)
 }
 
